@@ -17,11 +17,11 @@ func (f *verifJournalFile) Write(p []byte) (int, error) { f.writes++; return len
 func (f *verifJournalFile) Sync() error                 { return nil }
 
 func verifSplitHostPortOK(s string) (string, string, error) { return "192.0.2.1", "1", nil }
-func verifNewIPSetSink(key string) *ipsetsink.IPSetSink      { return new(ipsetsink.IPSetSink) }
-func verifSinkAdd(s *ipsetsink.IPSetSink, ip string)         {}
-func verifSinkDump(s *ipsetsink.IPSetSink) ([]byte, error)   { return []byte("sketch"), nil }
-func verifSinkReset(s *ipsetsink.IPSetSink)                  {}
-func verifJSONMarshal20(v interface{}) ([]byte, error)       { return []byte("{}"), nil }
+func verifNewIPSetSink(key string) *ipsetsink.IPSetSink     { return new(ipsetsink.IPSetSink) }
+func verifSinkAdd(s *ipsetsink.IPSetSink, ip string)        {}
+func verifSinkDump(s *ipsetsink.IPSetSink) ([]byte, error)  { return []byte("sketch"), nil }
+func verifSinkReset(s *ipsetsink.IPSetSink)                 {}
+func verifJSONMarshal20(v interface{}) ([]byte, error)      { return []byte("{}"), nil }
 
 func VerifC20_IPJournal() {
 	ctx := verifNewContext()
